@@ -17,9 +17,12 @@ def to_smt2(ob, extra_axioms=()):
     return s.to_smt2()
 
 
-def _z3_check(smt, timeout_ms, mbqi):
+def _z3_check(smt, timeout_ms, mbqi, seed=0):
     s = z3.Solver()
     s.set('timeout', timeout_ms)
+    if seed:
+        s.set('random_seed', seed)
+        s.set('smt.random_seed', seed)
     if not mbqi:
         s.set('smt.mbqi', False)
         s.set('auto_config', False)
@@ -59,6 +62,15 @@ def _solve_one(args):
     backend, note = 'z3-ematching', ''
     try:
         v, note = _z3_check(smt, timeout_ms, mbqi=False)
+        if v == 'unknown':
+            # a timeout of the E-matching run is sensitive to the instantiation order: two more attempts with other seeds
+            # (any `unsat` is a proof; the verdict of an invalid query — saturation — does not depend on the seed)
+            for seed in (7, 23):
+                v_, note_ = _z3_check(smt, timeout_ms, mbqi=False, seed=seed)
+                if v_ in ('unsat', 'sat', 'saturated'):
+                    v, note = v_, note_
+                    backend = 'z3-ematching(seed %d)' % seed
+                    break
         if v in ('unsat', 'sat') or not full:
             return name, ('failed' if v == 'saturated' and full else v), backend, round(time.time() - t0, 3), note
         v2, note2 = _z3_check(smt, timeout_ms, mbqi=True)
